@@ -2,11 +2,13 @@
 # Offline setup after a fresh restore: build the translator, regenerate Gen, warm the Lean build
 # (all property modules + the driver executable) and the Go build cache for the harness.
 set -e
-cd /verif
+cd "$(dirname "$0")"
+V="$(pwd)"
 export GOFLAGS=-mod=mod GOPROXY=off GOSUMDB=off GOTOOLCHAIN=local
 mkdir -p .bin .work evidence/replay
-(cd tools/gen && go build -o /verif/.bin/gen .)
-./.bin/gen /repo /verif/lean/FP/Gen /verif/.work/gen.json || true
+(cd tools/gen && go build -o $V/.bin/gen .)
+./.bin/gen ${VERIF_REPO:-/repo} $V/lean/FP/Gen $V/.work/gen.json || true
+python3 lean/mkall.py
 (cd lean && lake build FP driver)
-./buildharness.sh /verif/.bin/harness
+./buildharness.sh $V/.bin/harness
 echo setup-ok
